@@ -432,7 +432,8 @@ func (vc *VC) typeInv(t types.Type, s string, st *State) string {
 			return vc.ar.inRange(ii, s)
 		}
 		if u.Info()&types.IsString != 0 {
-			return vc.ar.le(ixInfo, vc.ar.ix(0), sx("slen_", s))
+			// strings, like slices, are shorter than 2^56 bytes
+			return and(vc.ar.le(ixInfo, vc.ar.ix(0), sx("slen_", s)), vc.ar.le(ixInfo, sx("slen_", s), vc.ar.ix(1<<56)))
 		}
 		if u.Kind() == types.UnsafePointer {
 			return "true"
@@ -568,7 +569,7 @@ func (vc *VC) havocAll(st *State) {
 	keep := map[string]string{}
 	defer func(e int) {}(st.epoch)
 	for k, v := range st.heap {
-		if k == tokKey || k == freshKey {
+		if k == tokKey || k == freshKey || strings.HasPrefix(k, "#fifo.") {
 			keep[k] = v
 		}
 		if strings.HasPrefix(k, "#ghost.") {
